@@ -155,6 +155,12 @@ def grammar1():
 def build_descriptor(ch, tag, d, sym=False):
     if d[0] == "absent":
         return ABSENT
+    if d[0] == "wrap_list":        # depth 2: a list holding one depth-1 value
+        v = build_descriptor(ch, tag + "[0]", d[1], sym)
+        return [] if v is ABSENT else [v]
+    if d[0] == "wrap_obj":         # depth 2: an object holding one depth-1 value under key "in" (plus a constant sibling)
+        v = build_descriptor(ch, tag + ".in", d[1], sym)
+        return {"sib": "abc"} if v is ABSENT else {"in": v, "sib": "abc"}
     if d[0] == "scalar":
         return build(ch, tag, d[1], sym)
     items = [build(ch, f"{tag}.{i}", k, sym) for i, k in enumerate(d[1:])]
